@@ -387,6 +387,8 @@ def run(ctx):
         bs = [rnd.choice(cl) for _ in range(2)] + [rnd.choice(ms)]
         if rnd.random() < 0.5:
             bs[1] = classical((0, 1, 2, 3)) if g % 2 else classical((0, 2, 1), (2, 0, 1, 3))
+        while bs[1] == bs[0]:                  # the model's Bases must be pairwise distinct (equal bases share an object)
+            bs[1] = rnd.choice(cl)
         real = Real(bs)
         events = []
         for _ in range(nh // (4 if quick else 16)):
